@@ -582,6 +582,9 @@ type concRun struct {
 	mu       sync.Mutex
 	deliv    []int
 	cbCalls  int
+	cbDone   int  // sequential consumer callbacks that have returned
+	cbFailed bool // the sequential consumer callback returned its injected error
+	pipeRet  bool // the pipe consumer function is about to return
 	filtCall int
 	ctx      context.Context
 	cancel   context.CancelFunc
@@ -636,10 +639,36 @@ func (r *concRun) seqConsumer(ctx context.Context, v int) error {
 	if out < 0 {
 		return ctx.Err()
 	}
+	r.mu.Lock()
+	r.cbDone++
+	if r.cc.cf == k {
+		r.cbFailed = true
+	}
+	r.mu.Unlock()
 	if r.cc.cf == k {
 		return errConcUser
 	}
 	return nil
+}
+
+// consumerStopped: the consumer of this materialisation has ended by itself (Limit / FindFirst reached, callback
+// error returned, pipe consumer returning).  From then on the library owes the return of the terminal without any
+// help from the environment: it has to release a reader that is blocked inside Emit by itself.
+func (r *concRun) consumerStopped() bool {
+	r.mu.Lock()
+	defer r.mu.Unlock()
+	cc := r.cc
+	switch {
+	case r.cbFailed, r.pipeRet:
+		return true
+	case cc.op == "pipe" || cc.op == "ccons":
+		return false
+	case cc.first:
+		return r.cbDone >= 1
+	case cc.limit > 0:
+		return r.cbDone >= cc.limit
+	}
+	return false
 }
 
 // concConsumer is the callback of the concurrent consume terminal (runs on worker goroutines).
@@ -795,6 +824,9 @@ func (r *concRun) build() func() error {
 						time.Sleep(50 * time.Microsecond)
 					}
 				}
+				r.mu.Lock()
+				r.pipeRet = true
+				r.mu.Unlock()
 				if cc.cerr {
 					return cc.reads, errConcUser
 				}
@@ -864,6 +896,7 @@ func (r *concRun) materialise(root context.Context, rootCancel context.CancelFun
 	r.ctx, r.cancel = context.WithCancel(root)
 	r.filtCall = 0
 	r.cbCalls = 0
+	r.cbDone, r.cbFailed, r.pipeRet = 0, false, false
 	term := r.build()
 	done := make(chan concResult, 1)
 	started := make(chan struct{})
@@ -949,6 +982,12 @@ func (r *concRun) materialise(root context.Context, rootCancel context.CancelFun
 			if r.src.releaseSlow() {
 				// the terminal is waiting for its reader, which is slow to leave the provider: let it go now
 				continue
+			}
+			if cc.cancel <= step && r.src.parked.Load() && !cancelled && r.consumerStopped() {
+				// the consumer has ended by itself and everything is blocked with the reader inside Emit: the library
+				// did not release its reader, the terminal will not return without outside help
+				hang = "stopped"
+				break
 			}
 			if (cc.cancel > step || r.src.parked.Load()) && !cancelled {
 				// nothing else to do: deliver the scripted cancel now; also when the reader is parked inside Emit
